@@ -25,6 +25,13 @@ def mk_graph(n, edges):
     return g
 
 
+def scramble(rng, edges):
+    """Same graph, edges in random order and random orientation (add_edge(larger, smaller) is legal)."""
+    e2 = [(v, u) if rng.random() < 0.5 else (u, v) for u, v in edges]
+    rng.shuffle(e2)
+    return e2
+
+
 FORMS = ["var", "neg", "expr", "const", "mixed"]
 
 
